@@ -49,7 +49,9 @@ else:
     ev = os.path.join(V, "evidence", "%s.json" % prop)
     keep = open(ev).read() if os.path.exists(ev) else None
     try:
-        rc, out = sh("VERIF_REPO=%s python3 tools/check.py --property %s --tier quick" % (wt, prop), V, timeout=3000)
+        tier = os.environ.get("SEED_TIER", "quick")
+        res["check_tier"] = tier
+        rc, out = sh("VERIF_REPO=%s python3 tools/check.py --property %s --tier %s" % (wt, prop, tier), V, timeout=6000)
         res["check"] = {"rc": rc, "lines": [l[:300] for l in out.split("\n") if l.startswith(("VIOLATION", "OK ", "FAIL ", "KNOWN", "INFO"))][:8]}
     finally:
         sh("git checkout -q -- .", wt)
